@@ -702,6 +702,19 @@ def try_get(name):
         return None, "LIB:%s: %s" % (type(e).__name__, e)
 
 
+class _Hint:
+    """stand-in for an unavailable instance in cost estimates (sort keys): never raises"""
+    q, kind, small = 11, "int", True
+
+    class ref:
+        esize, Q = 32, 53
+
+
+def hint(name):
+    inst, _ = try_get(name)
+    return inst if inst is not None else _Hint
+
+
 def lib_refuses_valid_group(name, why):
     """True when an integer toy instance - a valid (p, q, g) with reference-chosen, well-defined seeds, built only through the
     public IntegerGroup/_Params API - cannot be constructed because the library raises"""
